@@ -184,6 +184,37 @@ func (r *recorder) status() int {
 	}
 	return 0
 }
+// flushedLen: body bytes that were written before the last Flush (what an HTTP/2 peer can see)
+func (r *recorder) flushedLen() int {
+	total, flushed := 0, 0
+	for _, e := range r.events {
+		switch e.Kind {
+		case "W":
+			total += len(e.Data)
+		case "F":
+			flushed = total
+		}
+	}
+	return flushed
+}
+
+// flushOffsets: distinct body offsets at which a Flush happened
+func (r *recorder) flushOffsets() []int {
+	total := 0
+	var out []int
+	for _, e := range r.events {
+		switch e.Kind {
+		case "W":
+			total += len(e.Data)
+		case "F":
+			if len(out) == 0 || out[len(out)-1] != total {
+				out = append(out, total)
+			}
+		}
+	}
+	return out
+}
+
 func (r *recorder) headCount() int {
 	n := 0
 	for _, e := range r.events {
@@ -270,6 +301,8 @@ type backendObs struct {
 	ContentLen int64
 	Reads      []readResult
 	Writes     []string // error class per write
+	Visible    []int    // body bytes flushed to the client after each handler Write returned
+	probe      func() int
 	ctx        context.Context
 }
 
@@ -360,6 +393,9 @@ func scriptedBackend(obs *backendObs, script []action) http.Handler {
 			case "write":
 				_, err := w.Write(a.Data)
 				obs.Writes = append(obs.Writes, errClass(err))
+				if obs.probe != nil {
+					obs.Visible = append(obs.Visible, obs.probe())
+				}
 			case "flush":
 				if f, ok := w.(http.Flusher); ok {
 					f.Flush()
@@ -435,6 +471,8 @@ func runScenario(cfg e2eConfig, req clientReq, script []action, unknownScript []
 func runOn(tc http.Handler, req clientReq, res *scenarioResult) scenarioResult {
 	rec := &recorder{hdr: http.Header{}}
 	res.Rec = rec
+	res.Backend.probe = rec.flushedLen
+	res.Unknown.probe = rec.flushedLen
 	hr, _, ok := buildRequest(req, &rec.afterReturn, &rec.lateUse)
 	if !ok {
 		res.BadTarget = true
